@@ -1,46 +1,44 @@
 #!/bin/bash
 # evalmut.sh <prop-id> <mutant-dir> <name> [pkgs...]
 # 1. confirms the mutant in a scratch worktree (builds, existing tests pass, demo fails with / passes without)
-# 2. applies it to /repo, runs ./check <prop> (quick), undoes it
-# 3. stores it under /verif/seeded/<name>/
+# 2. runs ./check <prop> --tier quick in a PRIVATE MOUNT NAMESPACE in which /repo is the scratch
+#    worktree with the mutant applied (so /repo itself and everybody working there is untouched),
+#    with scratch dirs over /verif/evidence and /verif/out and a private binary dir
+# 3. stores the mutant under /verif/seeded/<name>/
 set -u
 P=$1; D=$2; NAME=$3; shift 3
 PKGS="$@"
 export GOFLAGS=-mod=mod GOPROXY=off
 WT=$(mktemp -d /tmp/evalmut-XXXX); rmdir $WT
 git -C /repo worktree add --detach $WT HEAD -q || exit 2
-trap 'git -C /repo worktree remove --force $WT' EXIT
+SCR=$(mktemp -d /tmp/evalscr-XXXX); mkdir -p $SCR/evidence $SCR/out $SCR/bin
+trap 'git -C /repo worktree remove --force $WT; rm -rf $SCR' EXIT
 place=$(python3 -c "import json;print(json.load(open('$D/meta.json')).get('demo_placement',''))")
+case "$place" in rolling-shutter/*) ;; *) place="rolling-shutter/$place";; esac
 [ -z "$PKGS" ] && PKGS="./$(dirname ${place#rolling-shutter/})/..."
 demo=$(ls $D/*_test.go 2>/dev/null | head -1)
-res="{}"
-echo "== demo without patch"
 cp $demo $WT/$place
-(cd $WT/rolling-shutter && go test -vet=off -count=1 $PKGS 2>&1 | tail -3); nopatch=$?
 (cd $WT/rolling-shutter && go test -vet=off -count=1 $PKGS >/dev/null 2>&1); nopatch=$?
-rm $WT/$place
-echo "== apply patch, build, existing tests"
-git -C $WT apply $D/patch.diff || { echo "PATCH DOES NOT APPLY"; exit 2; }
+rm $WT/$place; (cd $WT && git checkout -q -- . 2>/dev/null)
+git -C $WT apply $D/patch.diff 2>/dev/null || git -C $WT apply --3way $D/patch.diff 2>/dev/null || { echo "PATCH DOES NOT APPLY"; exit 2; }
+git -C $WT reset -q
 (cd $WT/rolling-shutter && go build ./... ) ; build=$?
-(cd $WT/rolling-shutter && go test -vet=off -count=1 $PKGS 2>&1 | tail -3)
 (cd $WT/rolling-shutter && go test -vet=off -count=1 $PKGS >/dev/null 2>&1); existing=$?
-echo "== demo with patch"
 cp $demo $WT/$place
-(cd $WT/rolling-shutter && go test -vet=off -count=1 $PKGS 2>&1 | grep -E "^(--- FAIL|FAIL|ok)" | head -5)
 (cd $WT/rolling-shutter && go test -vet=off -count=1 $PKGS >/dev/null 2>&1); withpatch=$?
+rm $WT/$place; (cd $WT && git checkout -q -- rolling-shutter/go.mod rolling-shutter/go.sum 2>/dev/null)
 echo "confirm: demo_without_patch_exit=$nopatch build=$build existing_tests_exit=$existing demo_with_patch_exit=$withpatch"
-echo "== run check on /repo with mutant"
-git -C /repo apply $D/patch.diff || { echo "cannot apply to /repo"; exit 2; }
-(cd /verif && ./check $P --tier quick > /tmp/evalmut-$NAME.log 2>&1); code=$?
-git -C /repo apply -R $D/patch.diff
-grep -E "^(VIOLATION|DRIFT|OK|INCONCLUSIVE|KNOWN|MODEL)" /tmp/evalmut-$NAME.log | cut -c1-300 | head -8
+unshare -m bash -c "mount --bind $WT /repo && mount --bind $SCR/evidence /verif/evidence && mount --bind $SCR/out /verif/out && cd /verif && VERIF_BIN=$SCR/bin ./check $P --tier quick" > /tmp/evalmut-$NAME.log 2>&1; code=$?
+grep -E "^(VIOLATION|OK|INCONCLUSIVE|KNOWN|MODEL)" /tmp/evalmut-$NAME.log | cut -c1-300 | head -6
 echo "check exit=$code"
 mkdir -p /verif/seeded/$NAME
 cp $D/patch.diff $D/meta.json $demo /verif/seeded/$NAME/
+what=$(grep -E "^VIOLATION" -A1 /tmp/evalmut-$NAME.log | sed -n 2p | cut -c1-200 | tr '"' "'" | tr -d '\\')
 python3 - <<PY
 import json
 m=json.load(open('/verif/seeded/$NAME/meta.json'))
 m['confirmed']={'demo_without_patch_exit':$nopatch,'build_exit':$build,'existing_tests_exit':$existing,'demo_with_patch_exit':$withpatch}
 m['check']={'cmd':'./check $P --tier quick','exit':$code,'detected':$code==1}
+m['caught_by']="""$what""".strip()
 json.dump(m,open('/verif/seeded/$NAME/meta.json','w'),indent=1)
 PY
